@@ -73,6 +73,4 @@ def Acc.GoodFrom (a : Acc) (v : Int) : Prop :=
 /-- no reachable vertex has out-degree 3 (precondition of the fast mode). -/
 def Acc.NoDeg3From (a : Acc) (v : Int) : Prop := ∀ u, a.Reach v u → a.outDeg u ≠ 3
 
-def IsBits (m : List Nat) : Prop := ∀ b ∈ m, b < 2
-
 end Dsw
